@@ -47,6 +47,7 @@ THEOREMS = [
     "call_footprint_sound", "call_writes_declared", "call_solo_result",
     "calls_noninterference", "multiref_per_call_safe", "multiref_shared_refuted",
     "clone_independent", "clone_keeps_original",
+    "clone_lookup_total", "clone_lookup_unguarded_refuted",
 ]
 
 PRE = "From SV Require Import Lib.Base C13.Interleave C13.Model."
@@ -1143,8 +1144,9 @@ def run(ck):
             if mode == "cold" and how == "orig" and variant == "plain":
                 cells = [d["loc"] for d in m["writes"] if d["loc"].startswith(("(LResolved", "(LFactory"))]
                 memo_cells[kind] = (cells[: len(cells) // 2], cells[len(cells) // 2:])
-                ck.sample({"footprint of": kind, "graph objects": m["graph_size"],
-                           "writes": [d["what"] for d in m["writes"]][:12]})
+                if kind in ("doc-echo", "enc-item"):
+                    ck.sample({"footprint of": kind, "graph objects": m["graph_size"],
+                               "writes": [d["what"] for d in m["writes"]][:12]})
             if m["result"][0] != "ok":
                 ck.failing_input("C13:call-fails-solo", "a solo %s call raises %s" % (kind, m["result"][1]),
                                  {"kind": kind, "variant": variant, "spec": spec, "mode": "footprint"})
@@ -1162,6 +1164,18 @@ def run(ck):
     for i in res_cl["cl_agrees"]:
         if i not in set(res_cl["cl_spec_ok"]):
             problems.append(("clone model", cl_meta[i]))
+
+    # ---------------- instrument 4: Endpoint.__getattr__ while copying ----------------
+    lk_cases, lk_meta = lookup_cases(ck, world)
+    res_lk = ck.run_cases("lookup", PRE, "lookup_case", lk_cases, ["lk_agrees", "lk_spec_ok"])
+    for i in res_lk["lk_spec_ok"]:
+        m = lk_meta[i]
+        ck.failing_input("C13:clone-fails", "Endpoint.__getattr__(%r) on a %s link endpoint: %s -- copy.deepcopy of "
+                         "the option graph, hence Client.clone(), cannot complete"
+                         % (m["name"], "complete" if m["has_target"] else "half-built (no 'target' yet)", m["obs"]), m)
+    for i in res_lk["lk_agrees"]:
+        if i not in set(res_lk["lk_spec_ok"]):
+            problems.append(("Endpoint.__getattr__ model", lk_meta[i]))
 
     # ---------------- instrument 2: schedules ----------------
     sc_cases, sc_meta = schedule_cases(ck, world, runner, rng, quick, memo_cells, suspicious_fp, fp_meta)
@@ -1332,6 +1346,40 @@ def clone_cases(ck, world, rng, quick):
             cbool(shared), cbool(fresh), cN(enc[repr(a)]), cN(enc[repr(v)]), cN(enc[repr(wv)]),
             clist([cN(enc.get(repr(x), 0)) for x in seen], "N")))
         meta.append(info)
+    return cases, meta
+
+
+def lookup_cases(ck, world):
+    """Endpoint.__getattr__ exactly as copy.deepcopy meets it: on an instance
+    made by __new__ (no attributes yet) and on complete endpoints of a real
+    option graph."""
+    from suds.properties import Endpoint, Unskin
+    cases, meta = [], []
+    c = world.new_client("plain")
+    complete = list(Unskin(c.options).links)[:2]
+    names = [("link", "NLink"), ("target", "NTarget"), ("__deepcopy__", "NDunder"), ("__setstate__", "NDunder"),
+             ("__getnewargs_ex__", "NDunder"), ("__c13__", "NDunder"), ("definitions", "NPlain"),
+             ("domain", "NPlain"), ("defined", "NPlain"), ("nosuchattr", "NPlain"), ("_c13", "NPlain")]
+    subjects = [("half", Endpoint.__new__(Endpoint))] + [("complete", e) for e in complete]
+    for kind, ep in subjects:
+        for name, cls in names:
+            has_target = "target" in getattr(ep, "__dict__", {})
+            target_has = bool(has_target and hasattr(ep.__dict__["target"], name))
+            try:
+                Endpoint.__getattr__(ep, name)
+                obs = "Found"
+            except AttributeError:
+                obs = "AttrErr"
+            except RecursionError:
+                obs = "Recursion"
+            except Exception as e:      # anything else: not one of the modelled answers
+                obs = "Recursion"
+                name = name + " (%s)" % type(e).__name__
+            cases.append("(mklk %s %s %s %s)" % (cls, cbool(has_target), cbool(target_has), obs))
+            meta.append({"probe": "lookup", "name": name, "has_target": has_target, "target_has": target_has,
+                         "obs": obs, "history": []})
+            ck.seen(("lookup", kind, name, has_target, target_has))
+            ck.count("endpoint-lookup-" + kind)
     return cases, meta
 
 
